@@ -288,8 +288,8 @@ Module Ex.
   Definition late : tx :=    (* deadline passed: rejected *)
     TxSwap (Coinswap.Sell 0 (Coinswap.User 0) Coinswap.Std 1000 (Coinswap.Tok 0) 1 5).
   (* block 1 crosses the day boundary (mints), block 2 swaps and carries a rejected transaction *)
-  Definition b1 : blk := mkBlk (t0 + day_ns + 5) orc [] [].
-  Definition b2 : blk := mkBlk (t0 + day_ns + 11) orc [sell; late] [].
+  Definition b1 : blk := mkBlk (t0 + day_ns + 5) orc 0 [] [].
+  Definition b2 : blk := mkBlk (t0 + day_ns + 11) orc 0 [sell; late] [].
 
   Definition plain : list op := [Block b1; Block b2].
   Definition noisy : list op :=
@@ -342,3 +342,25 @@ Proof.
   - pose proof (checktx_only_checkstate Ex.sell (genesis_node Ex.g0)) as (A & B & _). split; assumption.
   - vm_compute. intros H. discriminate H.
 Qed.
+
+(* late enabling of CSR: genesis without Turnstile and with CSR disabled; governance enables it in
+   block 1's end-blocker; block 2's begin-blocker deploys -- whether or not the node was restarted
+   (or read from) in between: the decision is taken on the committed state alone *)
+Module ExLate.
+  Definition csr_off : Csr.state :=
+    Csr.mkState Csr.empty_reg (Csr.mkMoney 0 0 (10 ^ 27) 0 (fun _ => 0)) (Csr.mkCfg None false 0).
+  Definition auth_off : Authority.chain unit :=
+    Authority.mkChain (Authority.mkCs 0 [] 0 0 1 []) (Authority.mkInf [97; 98; 99] 1 0 0 1 0 Ex.S18 0 true)
+                      (Authority.mkCsr false 0) (Authority.mkOnb true 0 []) (Authority.mkErc true true) tt.
+  Definition g : cstate := mkC [Ex.ep_day; Ex.ep_week] Ex.infl0 Ex.swap0 csr_off auth_off 0 Ex.t0 0 [103].
+  Definition enable : param_update := PUAuth (Authority.UpdCsr [103] false (Authority.mkCsr true (Ex.S18 / 5))).
+  Definition b1 : blk := mkBlk (Ex.t0 + 5) Ex.orc 0 [] [enable].
+  Definition b2 : blk := mkBlk (Ex.t0 + 9) Ex.orc 555 [] [].
+  Definition ts (n : node) : option Z := Csr.turnstile (Csr.cfg (c_csr (committed n))).
+End ExLate.
+
+Example ex_late_turnstile :
+  ExLate.ts (fst (run_ops [Block ExLate.b1] (genesis_node ExLate.g))) = None /\
+  ExLate.ts (fst (run_ops [Block ExLate.b1; Block ExLate.b2] (genesis_node ExLate.g))) = Some 555 /\
+  ExLate.ts (fst (run_ops [Block ExLate.b1; Restart; Query QExport; Block ExLate.b2] (genesis_node ExLate.g))) = Some 555.
+Proof. vm_compute. repeat split. Qed.
